@@ -15,7 +15,10 @@ from mc.lib import Acc, tree_hash, maxabs, on_path
 
 TREES = {
     "T1": {"v": [5], "m": [4, 2], "t": [2, 3, 2]},
-    "T2": {"w": [1, 3, 1, 2], "q": [4, 4], "s": [], "r": [1, 5]},
+    # k: two blocked axes (2 blocks each at block size 3) separated by a
+    # small axis
+    "T2": {"w": [1, 3, 1, 2], "q": [4, 4], "s": [], "r": [1, 5],
+           "k": [6, 2, 6]},
 }
 
 BASE = dict(block_size=3, merge_dims=4, second_moment_decay=0.5,
@@ -144,9 +147,10 @@ def plan(tier, seed):
       "bounds": {"deviation": k, "depth": depth},
       "assumptions": [
           "gradient alphabet keeps every block covariance either full rank "
-          "and well conditioned or exactly rank deficient; a case whose "
-          "eigenvalue falls within [1e-9,1e-4] of the block maximum is "
-          "counted inconclusive (the documented cut-off is a discontinuity)",
+          "and well conditioned or exactly rank deficient; a leaf with an "
+          "eigenvalue within a factor 4 of the documented 1e-6 cut-off (a "
+          "discontinuity) is undecidable from then on along that path and "
+          "is counted, the other leaves are still compared",
           "optax.adafactor is the trusted base for ADAFACTOR grafting"],
       "timeout": 3000,
   }
@@ -224,11 +228,13 @@ def run_task(task):
           au, as2 = ada[0](g, as_, params)
           au = {k: -np.asarray(v, np.float64) for k, v in au.items()}
         want, _ = r2.step(alpha[ev], au)
-        if r2.near_cutoff:
-          acc.inconclusive += 1
-          acc.outcome("near_cutoff_inconclusive")
-          continue
         for n in shapes:
+          if r2.leaves[n].near_cutoff:
+            # an eigenvalue within a factor 4 of the documented 1e-6 cut-off:
+            # which side it falls on is decided by rounding, the leaf stays
+            # undecidable for the rest of the path (the flag is sticky)
+            acc.outcome("near_cutoff_leaf_undecidable")
+            continue
           if r2.leaves[n].tail_switch_seen:
             acc.outcome("tail_switch_leaf_undecidable")
             continue
